@@ -61,6 +61,7 @@ type config struct {
 	faults       []reply // fault replies (cost 1 each)
 	failCost     bool    // non-OK completion costs a deviation
 	shutdownCost int     // 0 = free
+	late         bool    // scheduling points between Run's select and Synchronize (clock.Now after the drain, ctx.Err before Synchronize)
 }
 
 const (
@@ -123,6 +124,8 @@ type env struct {
 	runBoundary, termBefore bool
 	now1Pending, mustExit   bool
 	swapped, overWait       bool
+	pastSelect              bool // this Run has left its select (a fake call was made since)
+	atLate                  bool // parked at one of the two scheduling points between Run's select and Synchronize
 	syncCount, readyFails   int
 	ctxReadyFails           int
 	jumps                   int
@@ -187,6 +190,21 @@ func (e *env) point(label string) {
 	e.mu.Unlock()
 }
 
+// latePoint is a scheduling point between Run's select and the Synchronize
+// call. Only executor events (progress, completion) are offered there:
+// shutdown and clock jumps at these places are equivalent to the same event
+// while the thread sits in the select just before, or in the Synchronize
+// call just after (both are offered).
+func (e *env) latePoint(label string) {
+	e.mu.Lock()
+	e.atLate = true
+	e.mu.Unlock()
+	e.point(label)
+	e.mu.Lock()
+	e.atLate = false
+	e.mu.Unlock()
+}
+
 func (e *env) choose(label string, n int, free bool) int {
 	e.mu.Lock()
 	e.atHook = true
@@ -217,6 +235,9 @@ func (e *env) enter(call string) {
 	if !e.started {
 		return
 	}
+	if e.inSelect {
+		e.pastSelect = true
+	}
 	e.inSelect = false
 	e.expectBackoff = false
 	if e.mustExit {
@@ -224,6 +245,7 @@ func (e *env) enter(call string) {
 	}
 	if e.runBoundary {
 		e.runBoundary = false
+		e.pastSelect = false
 		e.termBefore = e.shutdown
 		e.swapped = false
 		if e.shutdown && !e.mayThink && e.certainIdle {
@@ -244,6 +266,19 @@ func (c fakeClock) Now() time.Time {
 	e := c.e
 	e.enter("Now")
 	e.flush()
+	// The clock reading that follows the select of Run (taken after the
+	// update channel was drained, before the request is built) is a
+	// scheduling point: the executor can publish progress or its completion
+	// right there.
+	e.mu.Lock()
+	after := e.cfg.late && e.pastSelect && !e.runBoundary
+	e.mu.Unlock()
+	if after {
+		tag := fmt.Sprintf("Now:after-select/%v", e.termBefore)
+		e.x.ResetLocal(tag)
+		e.latePoint("clock.Now:after-select")
+		e.x.ResetLocal(tag)
+	}
 	e.mu.Lock()
 	defer e.mu.Unlock()
 	if e.now1Pending {
@@ -288,6 +323,47 @@ func (t *fakeTimer) Stop() bool {
 }
 
 // ---------------------------------------------------------------------------
+// The worker thread's context
+
+// workerCtx is the context handed to LaunchWorkerThread's routine. Its Err()
+// is a scheduling point at ONE place: the call Run makes after its select
+// (timer expired or update applied) and before it calls Synchronize, i.e.
+// after the request's execution state and prefer_being_idle were derived.
+// The executor can publish progress / its completion there.
+// All other Err() calls (top of the loop, top of Run, after Run returned)
+// lie before the first fake call of a Run and are not scheduling points,
+// which keeps enter()'s reasoning about Run boundaries valid. The fakes
+// read the context through ctxErr(), never through this method.
+type workerCtx struct {
+	context.Context
+	e *env
+}
+
+func (c workerCtx) Err() error {
+	e := c.e
+	e.mu.Lock()
+	after := e.cfg.late && e.started && !e.done && !e.runBoundary && (e.inSelect || e.pastSelect)
+	var tag string
+	if after {
+		kind, _ := classify(builder.VerifWorkerDump(e.bc).CurrentState)
+		tag = fmt.Sprintf("ctx.Err:before-sync/%v/%d", e.termBefore, kind)
+	}
+	e.mu.Unlock()
+	if after {
+		e.x.ResetLocal(tag)
+		e.latePoint("ctx.Err:before-sync")
+	}
+	return c.Context.Err()
+}
+
+func ctxErr(ctx context.Context) error {
+	if c, ok := ctx.(workerCtx); ok {
+		return c.Context.Err()
+	}
+	return ctx.Err()
+}
+
+// ---------------------------------------------------------------------------
 // builder.BuildExecutor
 
 type fakeExecutor struct{ e *env }
@@ -307,7 +383,7 @@ func (f fakeExecutor) CheckReadiness(ctx context.Context) error {
 	e.x.ResetLocal(fmt.Sprintf("CheckReadiness=%d/%v", c, e.termBefore))
 	e.mu.Lock()
 	defer e.mu.Unlock()
-	if ctx.Err() != nil {
+	if ctxErr(ctx) != nil {
 		// Model of the real runner client (a gRPC call): it fails once the
 		// context it was given is cancelled, i.e. always after shutdown
 		// began unless the caller swapped the context.
@@ -398,7 +474,7 @@ func (g fakeGroup) Go(routine program.Routine) {
 		e.mu.Lock()
 		e.started = true
 		e.mu.Unlock()
-		err := routine(e.ctx, g, g)
+		err := routine(workerCtx{Context: e.ctx, e: e}, g, g)
 		e.x.Logf("worker thread returned (err=%v)", err)
 		e.mu.Lock()
 		e.done = true
@@ -555,7 +631,7 @@ func (s fakeScheduler) Synchronize(ctx context.Context, in *remoteworker.Synchro
 		if !pbi {
 			e.fail("pbi/after-shutdown", "request #%d (%s) was sent after shutdown began without prefer_being_idle", count, desc)
 		}
-		if ctx.Err() != nil {
+		if ctxErr(ctx) != nil {
 			e.fail("ctx/cancelled-at-send", "request #%d (%s) was sent after shutdown began with an already cancelled context", count, desc)
 		}
 	}
@@ -631,7 +707,7 @@ func (s fakeScheduler) Synchronize(ctx context.Context, in *remoteworker.Synchro
 	tag := fmt.Sprintf("%s/%v/%v", desc, e.termBefore, e.swapped)
 	e.mu.Unlock()
 	e.flush()
-	e.x.Logf("Synchronize #%d: request %s (ctx cancelled: %v), executors: %s", count, desc, ctx.Err() != nil, e.descExecs())
+	e.x.Logf("Synchronize #%d: request %s (ctx cancelled: %v), executors: %s", count, desc, ctxErr(ctx) != nil, e.descExecs())
 
 	var r reply
 	lost := false
@@ -655,7 +731,7 @@ func (s fakeScheduler) Synchronize(ctx context.Context, in *remoteworker.Synchro
 		// cancels is interrupted: the gRPC client returns CANCELED and
 		// the scheduler never answered (it may still hand work to that
 		// stream, so its belief stays as it was when the request went out).
-		if ctx.Err() != nil {
+		if ctxErr(ctx) != nil {
 			r = rErr
 			lost = true
 		}
@@ -671,7 +747,7 @@ func (s fakeScheduler) Synchronize(ctx context.Context, in *remoteworker.Synchro
 			r = menu[e.choose("Synchronize:reply["+replyList(menu)+"]", len(menu), true)]
 		}
 	}
-	if !over && ctx.Err() != nil {
+	if !over && ctxErr(ctx) != nil {
 		// Shutdown began while this call was in flight with the context
 		// that shutdown cancels. A real gRPC client then fails the call
 		// with CANCELED, whatever the scheduler did with the request
